@@ -561,8 +561,8 @@ func (m *Model) posts(n *Node, path string, mn *MNode, issuesBefore int) {
 				}
 				iss := MIssue{Path: path, Code: code, Type: n.ZType(), Node: n.ID, Why: "pt", Idx: i}
 				if p.Err == "issue" {
-					iss.Path = "*" // a returned ZogIssue is "reported as well": path/type are whatever it carries
-					iss.Type = "*"
+					// a returned ZogIssue is "reported as well": as itself or wrapped, the statement does not say
+					iss.Path, iss.Code, iss.Type = "*", "*", "*"
 				}
 				m.Issues = append(m.Issues, iss)
 				for j := i + 1; j < len(n.PTs); j++ {
@@ -689,8 +689,9 @@ func (m *Model) evalStruct(n *Node, in MIn, path string, mn *MNode) {
 		case in.V.K == "s" && strings.TrimSpace(in.V.S) == "":
 			m.abstain("whitespace string where a struct is expected")
 			return
-		case in.V.K == "x":
-			m.abstain("exotic input for struct")
+		case in.V.K == "x" || in.V.K == "t":
+			// a time.Time (or any Go struct) is itself a record as far as the documentation goes
+			m.abstain("Go struct value as input for a struct schema")
 			return
 		default:
 			m.issue(n, path, "coerce", "coerce", -1)
